@@ -2,6 +2,9 @@
 From Coq Require Import ZArith List Bool.
 Import ListNotations.
 From Verif Require Import Base.PyValue Model.Eval Model.Order Model.Exec Model.Naming Proofs.NamingProofs Proofs.SubqueryProofs.
+(* translator tie: required here, imported where the source theorems start (coqdep reads Requires reliably only
+   in the header, see harness/PYMINI.md) *)
+From Verif Require Model.PyMini Model.PrimsApi Gen.SrcNaming Proofs.SrcNaming.
 Open Scope Z_scope.
 
 Theorem C07_name_rule : forall t,
@@ -55,7 +58,7 @@ Proof. exact wildcard_names. Qed.
 Print Assumptions C07_wildcard.
 
 From Coq Require Import String.
-From Verif Require Import Model.PyMini Model.PrimsApi Gen.SrcNaming Proofs.SrcNaming.
+Import Verif.Model.PyMini Verif.Model.PrimsApi Verif.Gen.SrcNaming Verif.Proofs.SrcNaming.
 Open Scope list_scope.
 
 (* ---- Tie by translation (re-checked on every run against the CURRENT source of beanquery/compiler.py).
